@@ -87,11 +87,15 @@ void COSyncRx(CO_SYNC *sync, CO_IF_FRM *frm)
     int16_t n;
 
     for (i = 0; i < CO_RPDO_N; i++) {
+        if (sync->RPdo[i] == 0) {
+            continue;
+        }
         if (sync->RPdo[i]->Identifier == frm->Identifier) {
             for (n=0; n < 8; n++) {
                 sync->RFrm[i].Data[n] = frm->Data[n];
             }
             sync->RFrm[i].DLC = frm->DLC;
+            sync->RPdo[i]->Flag |= CO_RPDO_FLG_R__;
             break;
         }
     }
@@ -141,10 +145,17 @@ void COSyncHandler (CO_SYNC *sync)
         }
     }
 
+    if ((sync->Node->Nmt.Allowed & CO_PDO_ALLOWED) == 0) {
+        return;
+    }
     for (i = 0; i < CO_RPDO_N; i++) {
         if (sync->RPdo[i] != 0) {
-            CORPdoWrite(sync->RPdo[i], &sync->RFrm[i]);
-            COPdoSyncUpdate(sync->RPdo[i]);
+            /* write the frame which is received since last SYNC */
+            if ((sync->RPdo[i]->Flag & CO_RPDO_FLG_R__) != 0) {
+                sync->RPdo[i]->Flag &= ~CO_RPDO_FLG_R__;
+                CORPdoWrite(sync->RPdo[i], &sync->RFrm[i]);
+                COPdoSyncUpdate(sync->RPdo[i]);
+            }
         }
     }
 }
